@@ -96,11 +96,12 @@ def defer_measurements(
     """
 
     circuit = transformer_primitives.unroll_circuit_op(circuit, deep=True, tags_to_check=None)
-    terminal_measurements = {op for _, op in find_terminal_measurements(circuit)}
+    # Identified by position: an equal measurement earlier in the circuit is not terminal.
+    terminal_measurements = set(find_terminal_measurements(circuit))
     measurement_qubits: dict[cirq.MeasurementKey, list[tuple[cirq.Qid, ...]]] = defaultdict(list)
 
-    def defer(op: cirq.Operation, _) -> cirq.OP_TREE:
-        if op in terminal_measurements:
+    def defer(op: cirq.Operation, moment_index: int) -> cirq.OP_TREE:
+        if (moment_index, op) in terminal_measurements:
             return op
         gate = op.gate
         if isinstance(gate, ops.MeasurementGate):
